@@ -279,4 +279,68 @@ theorem run_inv {N : Name} {st : St} (hinv : Inv N st) (ops : List Op) : Inv N (
   | nil => exact hinv
   | cons op ops ih => exact ih (step_inv hinv op)
 
+/-! ### glue for the property file: start states, Boolean spec ↔ `Reports`, witness data -/
+
+/-- Start of a history: heap `h₀`, no registration, no notifier anywhere. -/
+abbrev start (h₀ : Heap) : St := { h := h₀, s := LState.empty, registered := false }
+
+theorem inv_start {N : Name} {h₀ : Heap} (ht : TreeShaped h₀) : Inv N (start h₀) :=
+  ⟨ht, Good.empty N, by simp [LState.empty]⟩
+
+theorem inv_run {N : Name} {h₀ : Heap} (ht : TreeShaped h₀) (ops : List Op) :
+    Inv N (run N (start h₀) ops) := run_inv (inv_start ht) ops
+
+
+theorem reportsAt_iff (N : Name) (h : Heap) (o : Nat) (a : Attr) :
+    reportsAt N h o a = true ↔
+      ∃ k l, N.links[k]? = some l ∧ l.attr = a ∧ l.notify = true ∧ o ∈ reach h N.links k := by
+  simp only [reportsAt, List.any_eq_true, List.mem_range]
+  constructor
+  · rintro ⟨k, _, hk⟩
+    cases hl : N.links[k]? with
+    | none => simp [hl] at hk
+    | some l =>
+      simp only [hl, Bool.and_eq_true, decide_eq_true_eq] at hk
+      exact ⟨k, l, hl, hk.1.1, hk.1.2, hk.2⟩
+  · rintro ⟨k, l, hl, h1, h2, h3⟩
+    obtain ⟨hlt, _⟩ := List.getElem?_eq_some_iff.mp hl
+    exact ⟨k, hlt, by simp [hl, h1, h2, h3]⟩
+
+
+/-- The witness: name `kids.value`, 4-argument handler, `root.kids.append(N())`. -/
+def witnessName : Name := ⟨[⟨.kids, true⟩], .value, .src⟩
+def witnessOps : List Op := [.reg]
+def witnessOp : Op := .splice 0 0 0 1
+
+
+theorem run_append (N : Name) (st : St) (a b : List Op) :
+    run N st (a ++ b) = run N (run N st a) b := by
+  induction a generalizing st with
+  | nil => rfl
+  | cons x a ih => simp [run, ih]
+
+theorem not_registered_calls {N : Name} {st : St} (hinv : Inv N st)
+    (hr : st.registered = false) (op : Op) (hop : op ≠ .reg) :
+    (step N st op).1.registered = false ∧ (step N st op).2.2 = [] := by
+  cases op with
+  | reg => exact (hop rfl).elim
+  | unreg => simp [step, hr]
+  | _ =>
+    all_goals
+      (rename_i op_args
+       constructor
+       · simp only [step]; split <;> (try split) <;> simp [hr]
+       · simp only [step]; split
+         · rfl
+         · rename_i m hm
+           have := (step_mutate hinv hm).2.2 (fun ⟨_, h2, _⟩ => by rw [hr] at h2; cases h2)
+           rw [step_of_mutate hm] at this
+           split <;> simp_all)
+
+
+/-- `child.kids.value`, 4-argument handler; build root → 1 → {2,3}, register. -/
+def exName : Name := ⟨[⟨.child, true⟩, ⟨.kids, true⟩], .value, .src⟩
+def exOps : List Op := [.setChild 0 true, .setKids 1 2, .reg]
+
+
 end TraitsVerif.Model.Legacy
